@@ -1,16 +1,18 @@
 package c33
 
 import (
+	"bytes"
 	"encoding/json"
 	"fmt"
+	"math/big"
 	"sort"
 	"strings"
 
+	"github.com/ontio/ontology-crypto/ec"
 	"github.com/ontio/ontology-crypto/keypair"
 	s "github.com/ontio/ontology-crypto/signature"
 	"github.com/ontio/ontology/common"
 	vconfig "github.com/ontio/ontology/consensus/vbft/config"
-	"github.com/ontio/ontology/core/signature"
 	cstates "github.com/ontio/ontology/core/states"
 	"github.com/ontio/ontology/core/store/leveldbstore"
 	"github.com/ontio/ontology/core/store/overlaydb"
@@ -22,6 +24,7 @@ import (
 	"github.com/ontio/ontology/smartcontract/service/native/global_params"
 	"github.com/ontio/ontology/smartcontract/service/native/utils"
 	"github.com/ontio/ontology/smartcontract/storage"
+	"golang.org/x/crypto/ed25519"
 
 	"verif/harness/hx"
 )
@@ -44,6 +47,8 @@ const junkBase = 100
 
 func junkPeerID(j int) string { return fmt.Sprintf("not-a-key-%d", j) }
 
+// newPool: key types the header codec accepts, mixed: P-256 x4 (indices 0,1,2,7), P-384 (3),
+// SM2 x2 (4,5), Ed25519 (6).
 func newPool() []*pkey {
 	var pool []*pkey
 	add := func(t keypair.KeyType, opt interface{}, sc s.SignatureScheme) {
@@ -53,12 +58,93 @@ func newPool() []*pkey {
 		}
 		pool = append(pool, &pkey{id: uint64(len(pool) + 1), pub: pub, priv: priv, scheme: sc, peerID: vconfig.PubkeyID(pub)})
 	}
-	for i := 0; i < nKeys-2; i++ {
+	for i := 0; i < 3; i++ {
 		add(keypair.PK_ECDSA, keypair.P256, s.SHA256withECDSA)
 	}
+	add(keypair.PK_ECDSA, keypair.P384, s.SHA384withECDSA)
+	add(keypair.PK_SM2, keypair.SM2P256V1, s.SM3withSM2)
 	add(keypair.PK_SM2, keypair.SM2P256V1, s.SM3withSM2)
 	add(keypair.PK_EDDSA, keypair.ED25519, s.SHA512withEDDSA)
+	add(keypair.PK_ECDSA, keypair.P256, s.SHA256withECDSA)
 	return pool
+}
+
+// ecPoolKeys: one pool index per elliptic-curve key type (P-256, P-384, SM2).
+var ecPoolKeys = []int{0, 3, 4}
+
+// guardedVerify is the driver's own verification: the crypto library called directly (not
+// core/signature), with a recover around it.  panicked reports a library panic.
+func guardedVerify(pub keypair.PublicKey, data, raw []byte) (ok bool, panicked bool) {
+	sg, err := s.Deserialize(raw)
+	if err != nil {
+		return false, false
+	}
+	defer func() {
+		if r := recover(); r != nil {
+			ok, panicked = false, true
+		}
+	}()
+	return s.Verify(pub, data, sg), false
+}
+
+// sameKey: the same key object (type, algorithm, curve, X and Y) - keypair.ComparePublicKey looks
+// at X only.
+func sameKey(a, b keypair.PublicKey) bool {
+	switch x := a.(type) {
+	case *ec.PublicKey:
+		y, ok := b.(*ec.PublicKey)
+		return ok && x.Algorithm == y.Algorithm && x.Params().Name == y.Params().Name && x.X.Cmp(y.X) == 0 && x.Y.Cmp(y.Y) == 0
+	case ed25519.PublicKey:
+		y, ok := b.(ed25519.PublicKey)
+		return ok && bytes.Equal(x, y)
+	}
+	return false
+}
+
+// Hostile encodings of pool key idx (what a header may carry in place of the standard compressed
+// form).  enc: "" standard; "uncompressed" the genuine point, 04 X Y; "off+N" the point (X, Y+N):
+// off the curve, same peer id when N is even; "nonresidue" a compressed form whose X has no Y;
+// "zero" the point (0,0) uncompressed; "infinity" a 00 form.  Ed25519 keys only have the
+// standard form.
+func (w *world) encodeKey(idx int, enc string) []byte {
+	std := keypair.SerializePublicKey(w.pool[idx].pub)
+	pk, isEC := w.pool[idx].pub.(*ec.PublicKey)
+	if enc == "" || !isEC {
+		return std
+	}
+	L := (pk.Params().BitSize + 7) >> 3
+	prefix := append([]byte{}, std[:len(std)-(1+L)]...)
+	fixed := func(v *big.Int) []byte {
+		b := v.Bytes()
+		if len(b) > L {
+			b = b[len(b)-L:]
+		}
+		return append(make([]byte, L-len(b)), b...)
+	}
+	switch {
+	case enc == "uncompressed":
+		return append(append(append(prefix, 0x04), fixed(pk.X)...), fixed(pk.Y)...)
+	case strings.HasPrefix(enc, "off+"):
+		var n int64
+		fmt.Sscanf(enc[4:], "%d", &n)
+		y := new(big.Int).Add(pk.Y, big.NewInt(n))
+		return append(append(append(prefix, 0x04), fixed(pk.X)...), fixed(y)...)
+	case enc == "nonresidue":
+		x := new(big.Int).Set(pk.X)
+		for i := 0; i < 64; i++ {
+			x.Add(x, big.NewInt(1))
+			cand := append(append(append([]byte{}, prefix...), 0x02), fixed(x)...)
+			if _, err := keypair.DeserializePublicKey(cand); err != nil {
+				return cand
+			}
+		}
+		panic("no non-residue found")
+	case enc == "zero":
+		return append(append(prefix, 0x04), make([]byte, 2*L)...)
+	case enc == "infinity":
+		return append(append(prefix, 0x00), make([]byte, L)...)
+	}
+	panic("encoding " + enc)
 }
 
 func (k *pkey) sign(data []byte) []byte {
@@ -83,13 +169,14 @@ type sigSpec struct {
 	Key  int    `json:"key"`
 }
 
-// hdrSpec: Bks are pool indices; Peers (when HasPeers) is the new_chain_config peer list: pool
+// hdrSpec: Bks are pool indices (BkEnc: hostile encodings of those keys, see encodeKey); Peers (when HasPeers) is the new_chain_config peer list: pool
 // indices, or junkBase+j for a junk id; BadPayload makes ConsensusPayload invalid JSON.
 type hdrSpec struct {
 	Chain      uint64    `json:"chain"`
 	Height     uint32    `json:"height"`
 	Salt       uint64    `json:"salt"`
 	Bks        []int     `json:"bks"`
+	BkEnc      []string  `json:"bk_enc,omitempty"` // per bookkeeper: how its key is encoded ("" = standard)
 	Sigs       []sigSpec `json:"sigs"`
 	HasPeers   bool      `json:"has_peers,omitempty"`
 	Peers      []int     `json:"peers,omitempty"`
@@ -104,11 +191,12 @@ type opSpec struct {
 // ---------------------------------------------------------------- world
 
 type world struct {
-	c        *hx.Ctx
-	pool     []*pkey
-	byPeerID map[string]uint64
-	overlay  *overlaydb.OverlayDB
-	operator common.Address
+	allowHostile bool
+	c            *hx.Ctx
+	pool         []*pkey
+	byPeerID     map[string]uint64
+	overlay      *overlaydb.OverlayDB
+	operator     common.Address
 }
 
 func newWorld(c *hx.Ctx, pool []*pkey) *world {
@@ -176,12 +264,14 @@ func modelPeer(p int) uint64 {
 	return uint64(p + 1)
 }
 
-// built is a header made from a spec, with everything the case term and the oracle need.
+// built is a header made from a spec, with everything the case term and the oracle need.  hdr is
+// the header as the contract sees it: decoded from raw (nil when raw does not decode).
 type built struct {
-	spec hdrSpec
-	hdr  *ccom.Header
-	raw  []byte
-	hash common.Uint256
+	spec      hdrSpec
+	hdr       *ccom.Header
+	raw       []byte
+	hash      common.Uint256
+	decodeErr error
 }
 
 func (w *world) build(sp hdrSpec) *built {
@@ -205,10 +295,23 @@ func (w *world) build(sp hdrSpec) *built {
 		h.ConsensusPayload = b
 	}
 	hash := h.Hash()
-	for _, b := range sp.Bks {
-		h.Bookkeepers = append(h.Bookkeepers, w.pool[b].pub)
+	// the unsigned part as the codec writes it (a header without bookkeepers and signatures ends
+	// with two zero counts), then the bookkeeper keys in the encodings the spec asks for
+	us := common.NewZeroCopySink(nil)
+	h.Serialization(us)
+	unsigned := us.Bytes()[:len(us.Bytes())-2]
+	sink := common.NewZeroCopySink(nil)
+	sink.WriteBytes(unsigned)
+	sink.WriteVarUint(uint64(len(sp.Bks)))
+	for i, k := range sp.Bks {
+		enc := ""
+		if i < len(sp.BkEnc) {
+			enc = sp.BkEnc[i]
+		}
+		sink.WriteVarBytes(w.encodeKey(k, enc))
 	}
 	other := append([]byte("other message "), hash[:]...)
+	sink.WriteVarUint(uint64(len(sp.Sigs)))
 	for _, sg := range sp.Sigs {
 		var raw []byte
 		switch sg.Kind {
@@ -224,11 +327,47 @@ func (w *world) build(sp hdrSpec) *built {
 		default:
 			panic("sig kind " + sg.Kind)
 		}
-		h.SigData = append(h.SigData, raw)
+		sink.WriteVarBytes(raw)
 	}
-	sink := common.NewZeroCopySink(nil)
-	h.Serialization(sink)
-	return &built{spec: sp, hdr: h, raw: append([]byte{}, sink.Bytes()...), hash: hash}
+	raw := append([]byte{}, sink.Bytes()...)
+	hdr, err := ccom.HeaderFromRawBytes(raw)
+	if err != nil {
+		hdr = nil
+	}
+	return &built{spec: sp, hdr: hdr, raw: raw, hash: hash, decodeErr: err}
+}
+
+// coqBookkeeper maps a decoded key object to the model's bkey: BkKey k when it is pool key k's
+// genuine key object, BkForged pid otherwise (pid = the peer id its PubkeyID names, 250 when it
+// names no known peer).  For a forged key the abstraction "no signature verifies under it" is
+// checked against the case's own signatures with the library called directly.
+func (w *world) coqBookkeeper(key keypair.PublicKey, data []byte, sigs [][]byte) string {
+	for _, k := range w.pool {
+		if sameKey(key, k.pub) {
+			return fmt.Sprintf("BkKey %d", k.id)
+		}
+	}
+	pid := uint64(250)
+	panicked, _ := hx.Recover(func() {
+		if v, ok := w.byPeerID[vconfig.PubkeyID(key)]; ok {
+			pid = v
+		}
+	})
+	if panicked {
+		w.c.Count("forged-key:pubkeyid-panics")
+	}
+	for _, raw := range sigs {
+		ok, pan := guardedVerify(key, data, raw)
+		switch {
+		case ok:
+			w.c.Fail("abstraction:forged-key-verifies", "a signature verifies under a key object that is no genuine pool key", hx.Hex(keypair.SerializePublicKey(key)), "verifies", "does not verify")
+		case pan:
+			w.c.Count("forged-key:library-verify-panics")
+		default:
+			w.c.Count("forged-key:library-verify-false")
+		}
+	}
+	return fmt.Sprintf("BkForged %d", pid)
 }
 
 // classifySig maps a real signature to the model's sigv by asking the real verifier: SigBad when
@@ -245,7 +384,7 @@ func (w *world) classifyRaw(data, other, raw []byte) (string, string) {
 	}
 	found := ""
 	for _, k := range w.pool {
-		if signature.Verify(k.pub, data, raw) == nil {
+		if ok, _ := guardedVerify(k.pub, data, raw); ok {
 			if found != "" {
 				w.c.Fail("abstraction:signature-two-keys", "one signature verifies under two pool keys", hx.Hex(raw), found, "one key")
 			}
@@ -256,7 +395,7 @@ func (w *world) classifyRaw(data, other, raw []byte) (string, string) {
 		return found, "ok"
 	}
 	for _, k := range w.pool {
-		if signature.Verify(k.pub, other, raw) == nil {
+		if ok, _ := guardedVerify(k.pub, other, raw); ok {
 			return fmt.Sprintf("SigOf %d 2", k.id), "other"
 		}
 	}
@@ -281,8 +420,8 @@ func coqPayload(sp hdrSpec) string {
 // verifier), not from the spec; a disagreement with the spec's intent is a driver defect.
 func (w *world) coqHeader(b *built) string {
 	var bks, sigs []string
-	for _, k := range b.spec.Bks {
-		bks = append(bks, hx.CoqN(uint64(k+1)))
+	for _, k := range b.hdr.Bookkeepers {
+		bks = append(bks, "("+w.coqBookkeeper(k, b.hash[:], b.hdr.SigData)+")")
 	}
 	for i, raw := range b.hdr.SigData {
 		t, kind := w.classifySig(b, raw)
